@@ -12,7 +12,8 @@ def ensure(names):
                           env=dict(os.environ, VERIF_REPO=build.REPO))
 
 
-def run_one(name, args, rc_params=None, exclude="", timeout=1500, extra_env=None):
+def run_one(name, args, rc_params=None, exclude="", timeout=None, extra_env=None):
+    timeout = timeout or (280 if os.environ.get("VERIF_TIER_RUN", "quick") == "quick" else 2700)
     wd = os.path.join(build.ROOT, ".work")
     fd, sp = tempfile.mkstemp(suffix=".stats", dir=wd)
     os.close(fd)
